@@ -35,6 +35,25 @@ enum Answer {
     Error,
     /// an error whose value is itself a `ParseState` (a consumer forwarding the failure of a nested parse)
     ErrorState(u8),
+    /// an error whose value is a std::io::Error of the k-th kind (Interrupted, WouldBlock, TimedOut, UnexpectedEof ..), a
+    /// std::fmt::Error, a string, a number parse error: whatever the consumer answers with, an Error ends the parse
+    ErrorOther(u8),
+}
+
+const OTHER_ERRORS: u8 = 24;
+fn other_error(k: u8) -> Box<dyn std::error::Error + Send + Sync> {
+    use std::io::ErrorKind as K;
+    const KINDS: [K; 20] = [
+        K::Interrupted, K::WouldBlock, K::TimedOut, K::UnexpectedEof, K::NotFound, K::PermissionDenied, K::ConnectionRefused, K::ConnectionReset, K::ConnectionAborted, K::NotConnected,
+        K::AddrInUse, K::AddrNotAvailable, K::BrokenPipe, K::AlreadyExists, K::InvalidInput, K::InvalidData, K::WriteZero, K::Other, K::Unsupported, K::OutOfMemory,
+    ];
+    match k {
+        k if (k as usize) < KINDS.len() => Box::new(std::io::Error::new(KINDS[k as usize], "scripted")),
+        20 => Box::new(std::fmt::Error),
+        21 => Box::new("x".parse::<u32>().unwrap_err()),
+        22 => Box::new(std::str::from_utf8(&[0xFF]).unwrap_err()),
+        _ => Box::new(std::io::Error::from_raw_os_error(4)),
+    }
 }
 
 fn forwarded_state(k: u8) -> ParseState {
@@ -59,6 +78,7 @@ impl Scripted {
             Some((at, Answer::Stop)) if at == idx => ParseAction::Stop,
             Some((at, Answer::Error)) if at == idx => ParseAction::Error(Box::new(ScriptErr(idx))),
             Some((at, Answer::ErrorState(k))) if at == idx => ParseAction::Error(Box::new(forwarded_state(k))),
+            Some((at, Answer::ErrorOther(k))) if at == idx => ParseAction::Error(other_error(k)),
             _ => ParseAction::Continue,
         }
     }
@@ -225,6 +245,9 @@ fn check_case(c: &Case) -> (Vec<Viol>, BTreeMap<String, u64>, u64) {
         for k in 0..4 {
             scripts.push(Some((p, Answer::ErrorState(k))));
         }
+        for k in 0..OTHER_ERRORS {
+            scripts.push(Some((p, Answer::ErrorOther(k))));
+        }
     }
     // both entry points: parse_bytes, and parse_words when the input is a whole number of words
     let words: Option<Vec<u32>> = if c.bytes.len() % 4 == 0 { Some(c.bytes.chunks(4).map(|b| u32::from_le_bytes([b[0], b[1], b[2], b[3]])).collect()) } else { None };
@@ -269,11 +292,18 @@ fn check_case(c: &Case) -> (Vec<Viol>, BTreeMap<String, u64>, u64) {
                 Some(st) if state_name(st) == state_name(&forwarded_state(k)) => *oc.entry("forwarded_state_carried".into()).or_insert(0) += 1,
                 other => out.push(viol(key("error-payload"), format!("case {} script {:?}: ConsumerError carries {:?}, not the consumer's own ParseState value", c.name, script, other.map(state_name)), rep.clone())),
             },
+            (Some((_, Answer::ErrorOther(k))), Err(ParseState::ConsumerError(e))) => {
+                if e.to_string() == other_error(k).to_string() {
+                    *oc.entry("other_error_carried".into()).or_insert(0) += 1
+                } else {
+                    out.push(viol(key("error-payload"), format!("case {} script {:?}: ConsumerError carries {:?}, not the consumer's own error value", c.name, script, e.to_string()), rep.clone()))
+                }
+            }
             (None, Ok(())) if c.fault.is_none() => *oc.entry("complete".into()).or_insert(0) += 1,
             (None, Err(e)) if c.fault == Some(state_name(e)) || c.fault == Some("*") && !state_name(e).starts_with("Consumer") && state_name(e) != "Complete" => *oc.entry(format!("parse_error_{}", state_name(e))).or_insert(0) += 1,
             (f, r) => out.push(viol(
                 key("result"),
-                format!("case {} script {:?}: result {:?}, expected {}", c.name, script, r.as_ref().map_err(|e| state_name(e)), match f { Some((_, Answer::Stop)) => "ConsumerStopRequested".to_string(), Some((_, Answer::Error)) | Some((_, Answer::ErrorState(_))) => "ConsumerError".to_string(), None => format!("{:?}", c.fault.unwrap_or("Ok")) }),
+                format!("case {} script {:?}: result {:?}, expected {}", c.name, script, r.as_ref().map_err(|e| state_name(e)), match f { Some((_, Answer::Stop)) => "ConsumerStopRequested".to_string(), Some((_, Answer::Error)) | Some((_, Answer::ErrorState(_))) | Some((_, Answer::ErrorOther(_))) => "ConsumerError".to_string(), None => format!("{:?}", c.fault.unwrap_or("Ok")) }),
                 rep.clone(),
             )),
         }
